@@ -1,6 +1,8 @@
 import FormulaicVerif.Engines.Json
 import FormulaicVerif.Model.BSpline
 import FormulaicVerif.Model.CubicSpline
+import FormulaicVerif.Model.SplineEntry
+import FormulaicVerif.Model.SplineSolve
 /-! Correspondence engine for C12: runs the executable models of `basis_spline` (`op = "bs"`) and
 `cubic_spline` (`op = "cs"`), and histories of such uses (`op = "uses"`).  Rationals travel as `"p/q"` strings (exact: every float the
 implementation produces is a dyadic rational). -/
@@ -41,99 +43,208 @@ def optMat (j : Json) (k : String) : Option (List (List Rat)) :=
   | .arr a => some (a.toList.map (fun r => (asArr r).map ratOf))
   | _ => none
 
+/-! ## shared decoding -/
+open BSpline (Mode) in
+def reasonJ (r : SplineEntry.Reason) : Json :=
+  Json.mkObj [("error", Json.str r.cls), ("reason", Json.str (reprStr r))]
+
+def optInt : Json → Option Int
+  | .null => none
+  | d => some (asInt d)
+
+def shapeOf : String → SplineEntry.XShape
+  | "scalar" => .scalar | "col" => .col | "mat" => .mat | "cube" => .cube | _ => .vec
+
+/-- `null` = `None`; `{"str": s}`; `{"ndim": k, "rows": [[…]]}` -/
+def consOf (j : Json) : SplineEntry.ConsArg :=
+  match j with
+  | .null => .none
+  | c =>
+    match c.getObjVal? "str" with
+    | .ok (.str s) => .str s
+    | _ => .arr (jnat c "ndim") (matOf c "rows")
+
 /-! ## basis_spline -/
 section bs
-open BSpline
-
-def modeOf : String → Mode
-  | "clip" => .clip | "na" => .na | "zero" => .zero | "extend" => .extend | _ => .raise
-
-def errJ : Err → Json
-  | .valueError => jerr "ValueError"
-  | .noData => jerr "not-modelled:no-data"
+open BSpline SplineEntry
 
 def outJ (o : Output) : Json :=
   Json.mkObj [("cols", jlist (o.cols.map (fun (n : Nat) => Json.num n))), ("rows", jlist (o.rows.map rowJ))]
 
+def stateJ (st : State) : Json :=
+  Json.mkObj [("lower", ratJ st.lower), ("upper", ratJ st.upper), ("knots", ratsJ st.knots)]
+
+/-- the call as written; an omitted argument (`null`) takes the default of the generated
+signature table.  `via` names the TRANSFORMS alias the call goes through. -/
+def rawBsOf (j : Json) : RawBs := {
+  x := (jarr j "x").map optRat
+  df := match jval j "df" with | .null => Gen.Spline.bsDf | d => some (asInt d)
+  knots := optRats j "knots"
+  degree := match jval j "degree" with | .null => Gen.Spline.bsDegree | d => asInt d
+  intercept := match jval j "intercept" with | .null => Gen.Spline.bsIntercept | b => asBool b
+  lower := match jval j "lower" with | .null => Gen.Spline.bsLower | v => some (ratOf v)
+  upper := match jval j "upper" with | .null => Gen.Spline.bsUpper | v => some (ratOf v)
+  mode := match jval j "mode" with | .null => Gen.Spline.bsMode | m => asStr m }
+
 def handleBs (j : Json) : Json :=
-  let a : Args := {
-    df := match jval j "df" with | .null => none | d => some (asInt d)
-    knots := optRats j "knots"
-    degree := jnat j "degree"
-    intercept := jbool j "intercept"
-    lower := optRat (jval j "lower")
-    upper := optRat (jval j "upper")
-    mode := modeOf (jstr j "mode") }
-  let xs := (jarr j "x").map optRat
-  let q := rats j "quant"
-  match fit a xs (fun _ _ => q) with
-  | .error e => errJ e
+  let aliasOk : Bool := match jval j "via" with
+    | .null => true
+    | v => (match resolveAlias (asStr v) with | some (f, _) => f == "basis_spline" | none => false)
+  if !aliasOk then jerr "unknown-alias" else
+  let r := rawBsOf j
+  -- the quantile PARAMETER: the implementation's interior knots when it recorded a state; when it
+  -- did not (the call failed), the model's own exact quantiles
+  let qf : List Rat → Nat → List Rat := match jval j "quant" with
+    | .null => quantLin
+    | _ => fun _ _ => rats j "quant"
+  -- the recorded state predicted by the model alone (quantile knots computed exactly)
+  let exact : Json := match prepareBs r quantLin with
+    | .error e => reasonJ e
+    | .ok (st, _) => stateJ st
+  match basisSpline r qf with
+  | .error e => (reasonJ e).setObjVal! "exact" exact
   | .ok (st, out) =>
     -- what the quantile routine was (or would have been) asked for
-    let s := knotsSample a.mode st.lower st.upper xs
+    let mode := (parseMode r.mode).getD .raise
+    let s := knotsSample mode st.lower st.upper r.x
     let second : Json := match optXs j "x2" with
       | none => .null
-      | some x2 => match transform st a.degree a.intercept a.mode x2 with
-        | .error e => errJ e
+      | some x2 => match transformBs st r.degree r.intercept r.mode x2 with
+        | .error e => reasonJ e
         | .ok o => outJ o
     Json.mkObj [
-      ("state", Json.mkObj [("lower", ratJ st.lower), ("upper", ratJ st.upper), ("knots", ratsJ st.knots)]),
-      ("first", outJ out), ("second", second), ("sample", ratsJ s.1)]
+      ("state", stateJ st), ("first", outJ out), ("second", second), ("sample", ratsJ s.1),
+      ("exact", exact)]
 end bs
 
 /-! ## cubic_spline -/
 section cs
-open CubicSpline
-
-def csErrJ : CubicSpline.Err → Json
-  | .valueError => jerr "ValueError"
-  | .index => jerr "IndexError"
-  | .noData => jerr "not-modelled:no-data"
+open CubicSpline SplineEntry
 
 def csOutJ (o : CubicSpline.Output) : Json :=
   Json.mkObj [("ncols", Json.num o.ncols), ("rows", jlist (o.rows.map rowJ))]
 
+def csStateJ (st : CubicSpline.State) : Json :=
+  Json.mkObj [("lower", ratJ st.lower), ("upper", ratJ st.upper), ("knots", ratsJ st.knots),
+    ("cyclic", Json.bool st.cyclic),
+    ("constraints", match st.constraints with | none => .null | some c => jlist (c.map ratsJ))]
+
+/-- the call as written.  `via` = `null`: `cubic_spline` itself; otherwise the TRANSFORMS alias,
+whose `functools.partial` preset of `cyclic` applies unless the call passes `cyclic` itself. -/
+def rawCsOf (j : Json) : Option RawCs :=
+  let preset : Option (Option Bool) := match jval j "via" with
+    | .null => some none
+    | v => (match resolveAlias (asStr v) with
+      | some (f, c) => if f == "cubic_spline" then some c else none
+      | none => none)
+  match preset with
+  | none => none
+  | some pc => some {
+      xshape := shapeOf (jstr j "xshape")
+      x := (jarr j "x").map optRat
+      df := match jval j "df" with | .null => Gen.Spline.csDf | d => some (asInt d)
+      knots := optRats j "knots"
+      lower := match jval j "lower" with | .null => Gen.Spline.csLower | v => some (ratOf v)
+      upper := match jval j "upper" with | .null => Gen.Spline.csUpper | v => some (ratOf v)
+      cons := consOf (jval j "cons")
+      cyclic := match jval j "cyclic" with
+        | .null => (match pc with | some c => c | none => Gen.Spline.csCyclic)
+        | b => asBool b
+      mode := match jval j "mode" with | .null => Gen.Spline.csMode | m => asStr m }
+
+/-- the second-derivative map the model solves for (exact, certified by `solveF`); the empty
+matrix when the solver fails, which surfaces as a disagreement -/
+def modelF (knots : List Rat) (cyclic : Bool) : List (List Rat) :=
+  match SplineSolve.solveF knots cyclic with
+  | some F => F
+  | none => []
+
 def handleCs (j : Json) : Json :=
-  let a : CubicSpline.Args := {
-    df := match jval j "df" with | .null => none | d => some (asInt d)
-    knots := optRats j "knots"
-    lower := optRat (jval j "lower")
-    upper := optRat (jval j "upper")
-    constraints := match jval j "constraints" with
-      | .null => .none
-      | .str _ => .center
-      | _ => .matrix (matOf j "constraints")
-    cyclic := jbool j "cyclic"
-    mode := modeOf (jstr j "mode") }
-  let xs := (jarr j "x").map optRat
-  let q := rats j "quant"
-  let F := matOf j "F"
+  match rawCsOf j with
+  | none => jerr "unknown-alias"
+  | some r =>
+    let qf : List Rat → Nat → List Rat := match jval j "quant" with
+      | .null => quantLin
+      | _ => fun _ _ => rats j "quant"
+    -- the implementation's F: only its contract residual is computed from it (diagnostic); the
+    -- rows are evaluated with the F the model solves for EXACTLY on the recorded knots
+    let Fimpl := matOf j "F"
+    let getF : List Rat → List (List Rat) := fun k => modelF k r.cyclic
+    let Q2 := matOf j "Q2"
+    let exact : Json := match prepareCs r quantLin with
+      | .error e => reasonJ e
+      | .ok p => Json.mkObj [("lower", ratJ p.lower), ("upper", ratJ p.upper), ("knots", ratsJ p.knots)]
+    match cubicSpline r qf getF (fun _ => Q2) with
+    | .error e => (reasonJ e).setObjVal! "exact" exact
+    | .ok (st, out) =>
+      let F := getF st.knots
+      let second : Json := match optXs j "x2" with
+        | none => .null
+        | some x2 => match transformState st (shapeOf (jstr j "x2shape")) x2 r.mode F Q2 with
+          | .error e => reasonJ e
+          | .ok o => csOutJ o
+      let xs := match reformatX r.xshape r.x with | .ok xs => xs | .error _ => []
+      Json.mkObj [
+        ("state", csStateJ st), ("first", csOutJ out), ("second", second),
+        ("sample", ratsJ (CubicSpline.knotsSample st.lower st.upper xs)),
+        ("exact", exact),
+        ("F", jlist (F.map ratsJ)),
+        ("solved", Json.bool (SplineSolve.solveF st.knots st.cyclic).isSome),
+        -- residuals of the contracts, exact: B·F − D on the implementation's F, and Q₂ᵀ·cᵀ
+        ("resF", jlist ((CubicSpline.residualF st.knots st.cyclic Fimpl).map ratsJ)),
+        ("resQ", match st.constraints with
+          | none => .null
+          | some c => jlist ((CubicSpline.residualQ c Q2).map ratsJ))]
+
+/-- `op = "cs_state"`: `cubic_spline(x, …, _state=<given>)` -/
+def handleCsState (j : Json) : Json :=
+  let sj := jval j "state"
+  let st : CubicSpline.State := {
+    lower := ratOf (jval sj "lower"), upper := ratOf (jval sj "upper"), knots := rats sj "knots",
+    cyclic := jbool sj "cyclic", constraints := optMat sj "constraints" }
+  let Fimpl := matOf j "F"
+  let F := modelF st.knots st.cyclic
   let Q2 := matOf j "Q2"
-  match CubicSpline.fit a xs (fun _ _ => q) (fun _ => F) (fun _ => Q2) with
-  | .error e => csErrJ e
-  | .ok (st, out) =>
-    let second : Json := match optXs j "x2" with
-      | none => .null
-      | some x2 => match CubicSpline.transform st a.mode x2 F Q2 with
-        | .error e => csErrJ e
-        | .ok o => csOutJ o
-    Json.mkObj [
-      ("state", Json.mkObj [("lower", ratJ st.lower), ("upper", ratJ st.upper), ("knots", ratsJ st.knots),
-        ("cyclic", Json.bool st.cyclic),
-        ("constraints", match st.constraints with | none => .null | some c => jlist (c.map ratsJ))]),
-      ("first", csOutJ out), ("second", second),
-      ("sample", ratsJ (CubicSpline.knotsSample st.lower st.upper xs)),
-      -- residuals of the parameter contracts, exact: B·F − D and Q₂ᵀ·cᵀ
-      ("resF", jlist ((CubicSpline.residualF st.knots st.cyclic F).map ratsJ)),
+  match transformState st (shapeOf (jstr j "xshape")) ((jarr j "x").map optRat)
+      (match jval j "mode" with | .null => Gen.Spline.csMode | m => asStr m) F Q2 with
+  | .error e => reasonJ e
+  | .ok o => Json.mkObj [("out", csOutJ o), ("F", jlist (F.map ratsJ)),
+      ("resF", jlist ((CubicSpline.residualF st.knots st.cyclic Fimpl).map ratsJ)),
       ("resQ", match st.constraints with
         | none => .null
         | some c => jlist ((CubicSpline.residualQ c Q2).map ratsJ))]
+
+/-- `op = "helper"`: the module-level helpers of cubic_spline.py called directly -/
+def handleHelper (j : Json) : Json :=
+  match jstr j "fn" with
+  | "map_cyclic" =>
+    match mapCyclicAll (rats j "x") (ratOf (jval j "lb")) (ratOf (jval j "ub")) with
+    | .error e => reasonJ e
+    | .ok v => Json.mkObj [("out", ratsJ v)]
+  | "sorted_knots" =>
+    let lower := ratOf (jval j "lower")
+    let upper := ratOf (jval j "upper")
+    let xs := (jarr j "x").map optRat
+    match sortedKnots (CubicSpline.knotsSample lower upper xs) lower upper (optInt (jval j "n_inner"))
+        (optRats j "inner") quantLin with
+    | .error e => reasonJ e
+    | .ok k => Json.mkObj [("out", ratsJ k)]
+  | "base" =>
+    let knots := rats j "knots"
+    let one (x : Rat) : Json := match CubicSpline.baseFunctions knots x with
+      | .error e => reasonJ (.inner e)
+      | .ok b => Json.mkObj [("ajm", ratJ b.ajm), ("ajp", ratJ b.ajp), ("cjm", ratJ b.cjm),
+          ("cjp", ratJ b.cjp), ("j", Json.num b.j)]
+    Json.mkObj [("out", jlist ((rats j "x").map one))]
+  | f => jerr ("unknown helper " ++ f)
 end cs
 
 def handleOne (j : Json) : Json :=
   match jstr j "op" with
   | "bs" => handleBs j
   | "cs" => handleCs j
+  | "cs_state" => handleCsState j
+  | "helper" => handleHelper j
   | o => jerr ("unknown op " ++ o)
 
 /-- `op = "uses"`: a HISTORY of uses of the transforms (several terms of one formula, successive
